@@ -74,6 +74,27 @@ func main() {
 			defer ef.Close()
 			p.ExecFile = ef.Fd()
 		}
+		if c["script"] == true {
+			// the executable descriptor is an interpreter script: whether or not such a launch is supported, the descriptor must not stay
+			// open in whatever runs
+			sp := filepath.Join(scratch, fmt.Sprintf("script%d", id))
+			os.WriteFile(sp, []byte("#!/vb/probe_target fdsenv\n"), 0755)
+			sf, e := os.Open(sp)
+			if e != nil {
+				return map[string]any{"harness_err": e.Error()}
+			}
+			defer sf.Close()
+			p.ExecFile = sf.Fd()
+			p.Env = []string{"VERIF_OUT=" + report}
+		}
+		if c["cgroupfd"] == true {
+			cf, e := os.Open("/sys/fs/cgroup/unified")
+			if e != nil {
+				return map[string]any{"skipped": "no cgroup2 hierarchy: " + e.Error()}
+			}
+			defer cf.Close()
+			p.CgroupFD = cf.Fd()
+		}
 		ctx, cancel := context.WithTimeout(context.Background(), 10*time.Second)
 		res := env.Execve(ctx, p)
 		cancel()
